@@ -32,6 +32,17 @@ CHECKS["C12"] = (
     "Trusts Python Fraction/Decimal/float(); 'best precision' is computed for normalised-mantissa "
     "renderings; values rounding to 1e7/1e15 print without a decimal point (observation O1, numerically fine).",
     "3/C12")
+CHECKS["C04"] = (
+    "Hypothesis-generated files (shape/sparsity/value-class/input-type/option grid) + enumerated boundary "
+    "shapes; write->read round-trip oracle with exact-rational ASCII tolerance",
+    "Generated-input search over files of 1..5 matrices x binary/ascii x endian x dense/bigmat/nonbigmat x "
+    "digits x ndarray/coo/csr/csc/int/float32/1-D inputs x names/forms, value classes spanning the whole "
+    "double range (3-digit exponents, subnormals), plus the switch-point shapes (3000-value columns, "
+    "16384-value strings, 65536 rows). Every file is read back through list/dct/read/dir, dense, sparse, "
+    "auto and callable modes and name subsets; binary must be bit-exact, ASCII within half a unit of the "
+    "last requested digit in exact arithmetic.",
+    "Trusts numpy/scipy.sparse conversions; form inference on nearly-symmetric matrices accepts 1 or 6; "
+    "values whose decimal rounding exceeds DBL_MAX are out of domain.", "3/C04")
 
 NOT_APPLICABLE = {
 }
